@@ -1,8 +1,853 @@
-//! C16 — not built yet (stub).
+//! C16 — escape / escape_once / url_encode / url_decode / strip_html.
+//!
+//! Non-trivial rule (for `distinct_nontrivial`): the input contains at least one character the
+//! filter group under test treats specially — escape and escape_once: one of < > & " ' ; the URL
+//! pair: a character outside [A-Za-z0-9._-] ; strip_html: a '<'.
+//!
+//! Workload (every worker walks all of it, executes `ctx.mine(hash)`); one case = one input text in
+//! one group (escape: 1 render; escape_once: 2 renders; url: 3 renders; strip_html: 1 render):
+//!  * exhaustive: all strings of length <= 5 (quick: <= 4) over {< > & " ' ; # a l t m p space U+00E9}
+//!    through escape and escape_once; all strings of length <= 4 over {% + 2 F f space / U+00E9 U+1F44D}
+//!    through url_encode, url_encode|url_decode and url_decode; all strings of length <= 6
+//!    (quick: <= 5) over {< > ! - / s c r i p t a} through strip_html;
+//!  * the letter alphabet of the statement cannot spell &gt; &quot; &#39; so additionally all
+//!    sequences of <= 4 (quick: <= 3) *tokens* out of the five entities, their semicolon-less and
+//!    doubled forms, other entities (&copy; &#x27;) and the bare specials go through escape/escape_once;
+//!  * random texts of <= 200 characters from the full generator of C13 (ASCII, Latin-1, combining
+//!    marks, emoji, ZWJ sequences, CRLF, controls) mixed with entity / percent-escape / tag tokens
+//!    (valid and invalid UTF-8 escapes, overlong forms, surrogates, malformed `%`), through all groups.
+//!
+//! Oracles (as stated by the property; decisions where the documentation is silent):
+//!  * escape: no bare < > " ' in the output, every & starts one of &lt; &gt; &amp; &quot; &#39;
+//!    (the five the filter produces), and replacing those entities back, left to right, gives the
+//!    input. (Together these determine the output uniquely.)
+//!  * escape_once ("Escapes a string without changing existing escaped entities"): no bare < > " ',
+//!    every & in the output starts an entity, un-escaping the five entities once in the output gives
+//!    the same text as un-escaping them once in the input, and escape_once∘escape_once = escape_once.
+//!    Which strings are "existing entities" is not documented; two readings are accepted for the exact
+//!    comparison "escape applied to everything that is not an entity": the five entities only, or any
+//!    `&name;` / `&#digits;` / `&#xhex;` (Shopify).
+//!  * url_encode: output only [A-Za-z0-9._-] and %XX; byte by byte: alphanumerics literally
+//!    ("URL-unsafe characters" are converted, safe ones are not), '-' '.' '_' literally or escaped,
+//!    everything else escaped (either hex case); url_decode(url_encode(x)) = x.
+//!  * url_decode against a hand-written decoder: '+' -> space, %XX -> byte, decoded bytes must be
+//!    UTF-8 else an error. A '%' not followed by two hex digits is outside "a string that has been
+//!    encoded": the percent-encoding crate documents that it stays literal (WHATWG), that result or
+//!    an error are both accepted there (counted as `url_decode:malformed-percent-cell`).
+//!  * strip_html: the output contains no '<' that is followed later by a '>'; additionally (from
+//!    "Removes any HTML tags") the filter only removes: the output is a subsequence of the input and
+//!    an input without '<' is returned unchanged.
+use super::c13::rand_text;
+use crate::cfg::{parser, Config};
 use crate::ctx::Ctx;
+use crate::exec::{render, Out};
+use crate::rng::{hash_combine, hash_str};
+use crate::val::RVal;
+use liquid::{Object, Parser, Template};
+use serde_json::{json, Value as Json};
 
-pub fn run(_ctx: &mut Ctx) {}
+const HTML_ALPHA: [char; 14] = ['<', '>', '&', '"', '\'', ';', '#', 'a', 'l', 't', 'm', 'p', ' ', '\u{e9}'];
+const URL_ALPHA: [char; 9] = ['%', '+', '2', 'F', 'f', ' ', '/', '\u{e9}', '\u{1F44D}'];
+const TAG_ALPHA: [char; 12] = ['<', '>', '!', '-', '/', 's', 'c', 'r', 'i', 'p', 't', 'a'];
 
-pub fn replay(_j: &serde_json::Value) -> bool {
-    false
+const ENTITY_TOKENS: [&str; 19] = [
+    "&lt;", "&gt;", "&amp;", "&quot;", "&#39;", "&", ";", "&#39", "&amp", "&lt", "<", ">", "\"", "'", "a", "#", "&#x27;", "&copy;",
+    "\u{e9}",
+];
+
+const RANDOM_TOKENS: &[&str] = &[
+    "&lt;", "&gt;", "&amp;", "&quot;", "&#39;", "&#x27;", "&copy;", "&", "&#", "&amp", "&amp;amp;", "<b>", "</b>", "<script>",
+    "</script>", "<SCRIPT x>", "<!--", "-->", "<style>", "</style>", "<br/>", "<a href=\"x\">", ">", "<", "\"", "'", "< ", " >",
+    "%20", "%2F", "%2f", "%C3%A9", "%c3%a9", "%C3", "%A9", "%E2%82%AC", "%F0%9F%91%8D", "%ED%A0%80", "%C0%80", "%FF", "%", "%2",
+    "%G1", "%%", "+", "%2B", "%00", "%7E", "~", "/", "?", "=", "-", ".", "_",
+];
+
+const T_ESCAPE: &str = "{{ x | escape | vdump }}";
+const T_ONCE: &str = "{{ x | escape_once | vdump }}";
+const T_ONCE2: &str = "{{ x | escape_once | escape_once | vdump }}";
+const T_ENC: &str = "{{ x | url_encode | vdump }}";
+const T_ENCDEC: &str = "{{ x | url_encode | url_decode | vdump }}";
+const T_DEC: &str = "{{ x | url_decode | vdump }}";
+const T_STRIP: &str = "{{ x | strip_html | vdump }}";
+
+#[derive(Clone, Copy, PartialEq, Eq, Debug)]
+enum Group {
+    Escape,
+    EscapeOnce,
+    Url,
+    StripHtml,
+}
+
+impl Group {
+    fn name(self) -> &'static str {
+        match self {
+            Group::Escape => "escape",
+            Group::EscapeOnce => "escape_once",
+            Group::Url => "url",
+            Group::StripHtml => "strip_html",
+        }
+    }
+    fn from_name(s: &str) -> Option<Group> {
+        [Group::Escape, Group::EscapeOnce, Group::Url, Group::StripHtml].into_iter().find(|g| g.name() == s)
+    }
+    fn nontrivial(self, x: &str) -> bool {
+        match self {
+            Group::Escape | Group::EscapeOnce => x.chars().any(|c| matches!(c, '<' | '>' | '&' | '"' | '\'')),
+            Group::Url => x.chars().any(|c| !(c.is_ascii_alphanumeric() || matches!(c, '.' | '_' | '-'))),
+            Group::StripHtml => x.contains('<'),
+        }
+    }
+}
+
+// ---------------------------------------------------------------------------------------------
+// reference side
+// ---------------------------------------------------------------------------------------------
+
+const FIVE: [(&str, char); 5] = [("lt;", '<'), ("gt;", '>'), ("amp;", '&'), ("quot;", '"'), ("#39;", '\'')];
+
+/// length (in chars, all ASCII) of one of the five entity bodies at the start of `rest`
+fn five_body(rest: &[char]) -> Option<(usize, char)> {
+    for (body, c) in FIVE {
+        let b: Vec<char> = body.chars().collect();
+        if rest.len() >= b.len() && rest[..b.len()] == b[..] {
+            return Some((b.len(), c));
+        }
+    }
+    None
+}
+
+/// length of a generic entity body (`name;`, `#digits;`, `#xhex;`) at the start of `rest`
+fn generic_body(rest: &[char]) -> Option<usize> {
+    let mut i = 0;
+    if rest.first() == Some(&'#') {
+        i = 1;
+        if matches!(rest.get(i), Some('x') | Some('X')) {
+            i += 1;
+            let st = i;
+            while matches!(rest.get(i), Some(c) if c.is_ascii_hexdigit()) {
+                i += 1;
+            }
+            if i == st {
+                return None;
+            }
+        } else {
+            let st = i;
+            while matches!(rest.get(i), Some(c) if c.is_ascii_digit()) {
+                i += 1;
+            }
+            if i == st {
+                return None;
+            }
+        }
+    } else {
+        while matches!(rest.get(i), Some(c) if c.is_ascii_alphabetic()) {
+            i += 1;
+        }
+        if i == 0 {
+            return None;
+        }
+    }
+    if rest.get(i) == Some(&';') {
+        Some(i + 1)
+    } else {
+        None
+    }
+}
+
+/// replace the five entities back, left to right, once
+fn unescape5(s: &str) -> String {
+    let c: Vec<char> = s.chars().collect();
+    let mut out = String::new();
+    let mut i = 0;
+    while i < c.len() {
+        if c[i] == '&' {
+            if let Some((l, ch)) = five_body(&c[i + 1..]) {
+                out.push(ch);
+                i += 1 + l;
+                continue;
+            }
+        }
+        out.push(c[i]);
+        i += 1;
+    }
+    out
+}
+
+fn escape_char(c: char, out: &mut String) {
+    match c {
+        '<' => out.push_str("&lt;"),
+        '>' => out.push_str("&gt;"),
+        '&' => out.push_str("&amp;"),
+        '"' => out.push_str("&quot;"),
+        '\'' => out.push_str("&#39;"),
+        _ => out.push(c),
+    }
+}
+
+/// escape applied to everything that is not an existing entity
+fn ref_escape_once(s: &str, generic: bool) -> String {
+    let c: Vec<char> = s.chars().collect();
+    let mut out = String::new();
+    let mut i = 0;
+    while i < c.len() {
+        if c[i] == '&' {
+            let l = if generic { generic_body(&c[i + 1..]) } else { five_body(&c[i + 1..]).map(|(l, _)| l) };
+            if let Some(l) = l {
+                out.extend(c[i..i + 1 + l].iter());
+                i += 1 + l;
+                continue;
+            }
+        }
+        escape_char(c[i], &mut out);
+        i += 1;
+    }
+    out
+}
+
+/// first bare special of an escaped text: < > " ' anywhere, or an & that does not start an entity
+fn bare_special(s: &str, generic_entities: bool) -> Option<char> {
+    let c: Vec<char> = s.chars().collect();
+    for i in 0..c.len() {
+        match c[i] {
+            '<' | '>' | '"' | '\'' => return Some(c[i]),
+            '&' => {
+                let ok = five_body(&c[i + 1..]).is_some() || (generic_entities && generic_body(&c[i + 1..]).is_some());
+                if !ok {
+                    return Some('&');
+                }
+            }
+            _ => {}
+        }
+    }
+    None
+}
+
+fn hexval(b: u8) -> Option<u8> {
+    match b {
+        b'0'..=b'9' => Some(b - b'0'),
+        b'a'..=b'f' => Some(b - b'a' + 10),
+        b'A'..=b'F' => Some(b - b'A' + 10),
+        _ => None,
+    }
+}
+
+/// hand-written decoder: (bytes, saw a '%' that is not followed by two hex digits)
+fn ref_url_decode(s: &str) -> (Vec<u8>, bool) {
+    let b = s.as_bytes();
+    let mut out = Vec::with_capacity(b.len());
+    let mut malformed = false;
+    let mut i = 0;
+    while i < b.len() {
+        match b[i] {
+            b'+' => {
+                out.push(b' ');
+                i += 1;
+            }
+            b'%' => {
+                let h = b.get(i + 1).copied().and_then(hexval);
+                let l = b.get(i + 2).copied().and_then(hexval);
+                match (h, l) {
+                    (Some(h), Some(l)) => {
+                        out.push(h * 16 + l);
+                        i += 3;
+                    }
+                    _ => {
+                        malformed = true;
+                        out.push(b'%');
+                        i += 1;
+                    }
+                }
+            }
+            c => {
+                out.push(c);
+                i += 1;
+            }
+        }
+    }
+    (out, malformed)
+}
+
+/// walk input bytes and encoded text in parallel; Err(description) on the first disagreement
+fn check_encoding(x: &str, enc: &str) -> Result<(), String> {
+    let e = enc.as_bytes();
+    let mut j = 0;
+    for &b in x.as_bytes() {
+        let alnum = b.is_ascii_alphanumeric();
+        let optional = matches!(b, b'-' | b'.' | b'_');
+        if j < e.len() && e[j] == b'%' {
+            let v = match (e.get(j + 1).copied().and_then(hexval), e.get(j + 2).copied().and_then(hexval)) {
+                (Some(h), Some(l)) => h * 16 + l,
+                _ => return Err(format!("malformed escape at output byte {j}")),
+            };
+            if v != b {
+                return Err(format!("input byte {b:#04x} encoded as %{v:02X}"));
+            }
+            if alnum {
+                return Err(format!("URL-safe character {:?} was percent-encoded", b as char));
+            }
+            j += 3;
+        } else if j < e.len() && e[j] == b && (alnum || optional) {
+            j += 1;
+        } else {
+            return Err(format!("input byte {b:#04x} not encoded as expected at output byte {j}"));
+        }
+    }
+    if j != e.len() {
+        return Err("encoded text has trailing bytes".into());
+    }
+    Ok(())
+}
+
+// ---------------------------------------------------------------------------------------------
+// monitors
+// ---------------------------------------------------------------------------------------------
+
+pub struct Finding {
+    pub key: String,
+    pub what: String,
+    pub template: &'static str,
+    pub expected: Json,
+    pub observed: String,
+}
+
+fn show(s: &str) -> String {
+    let t: String = s.chars().take(60).collect();
+    format!("{:?}", t)
+}
+
+/// Ok(Some(text)) = a string result, Ok(None) = the filter returned an error
+fn read(out: &Out, filter: &str, template: &'static str, fs: &mut Vec<Finding>) -> Result<Option<String>, ()> {
+    match out {
+        Out::Ok(d) => match d.strip_prefix("s:").and_then(|j| serde_json::from_str::<String>(j).ok()) {
+            Some(s) => Ok(Some(s)),
+            None => {
+                fs.push(Finding {
+                    key: format!("{filter}:not-a-string"),
+                    what: format!("{filter} of a string returned {}", show(d)),
+                    template,
+                    expected: json!("a string"),
+                    observed: out.summary(),
+                });
+                Err(())
+            }
+        },
+        Out::Err(_) => Ok(None),
+        Out::Panic(p) => {
+            fs.push(Finding {
+                key: p.key(),
+                what: format!("{filter} panicked at {}: {}", p.site(), p.msg),
+                template,
+                expected: json!("no panic"),
+                observed: out.summary(),
+            });
+            Err(())
+        }
+        Out::BadUtf8(_) => {
+            fs.push(Finding {
+                key: "non-utf8-output".into(),
+                what: format!("{filter} produced output that is not UTF-8"),
+                template,
+                expected: json!("UTF-8"),
+                observed: out.summary(),
+            });
+            Err(())
+        }
+    }
+}
+
+fn unexpected_error(filter: &str, template: &'static str, out: &Out, fs: &mut Vec<Finding>) {
+    fs.push(Finding {
+        key: format!("{filter}:unexpected-error"),
+        what: format!("{filter} of a string returned an error"),
+        template,
+        expected: json!("a string"),
+        observed: out.summary(),
+    });
+}
+
+fn check_escape(x: &str, out: &Out) -> Vec<Finding> {
+    let mut fs = Vec::new();
+    let Ok(r) = read(out, "escape", T_ESCAPE, &mut fs) else { return fs };
+    let Some(r) = r else {
+        unexpected_error("escape", T_ESCAPE, out, &mut fs);
+        return fs;
+    };
+    if let Some(c) = bare_special(&r, false) {
+        fs.push(Finding {
+            key: "escape:bare-special".into(),
+            what: format!("escape output contains a bare {c:?} that is not part of one of its five entities"),
+            template: T_ESCAPE,
+            expected: json!("no < > \" ' and every & starts &lt; &gt; &amp; &quot; or &#39;"),
+            observed: out.summary(),
+        });
+    }
+    let back = unescape5(&r);
+    if back != x {
+        fs.push(Finding {
+            key: "escape:not-invertible".into(),
+            what: format!("replacing the entities back in the escape output gives {} instead of the input", show(&back)),
+            template: T_ESCAPE,
+            expected: json!(format!("un-escaped output = {x:?}")),
+            observed: out.summary(),
+        });
+    }
+    fs
+}
+
+fn check_escape_once(x: &str, once: &Out, twice: &Out) -> Vec<Finding> {
+    let mut fs = Vec::new();
+    let Ok(r) = read(once, "escape_once", T_ONCE, &mut fs) else { return fs };
+    let Some(r) = r else {
+        unexpected_error("escape_once", T_ONCE, once, &mut fs);
+        return fs;
+    };
+    if let Some(c) = bare_special(&r, true) {
+        fs.push(Finding {
+            key: "escape_once:bare-special".into(),
+            what: format!("escape_once output contains a bare {c:?}"),
+            template: T_ONCE,
+            expected: json!("no < > \" ' and every & starts an entity"),
+            observed: once.summary(),
+        });
+    }
+    let (a, b) = (unescape5(&r), unescape5(x));
+    if a != b {
+        fs.push(Finding {
+            key: "escape_once:changes-meaning".into(),
+            what: format!("un-escaping the escape_once output gives {} but un-escaping the input gives {}", show(&a), show(&b)),
+            template: T_ONCE,
+            expected: json!(format!("un-escaped output = {b:?}")),
+            observed: once.summary(),
+        });
+    }
+    let (five, generic) = (ref_escape_once(x, false), ref_escape_once(x, true));
+    if r != five && r != generic {
+        fs.push(Finding {
+            key: "escape_once:differs-from-reference".into(),
+            what: "escape_once is not escape applied to the parts that are not existing entities (five-entity and any-entity readings)".into(),
+            template: T_ONCE,
+            expected: json!([five, generic]),
+            observed: once.summary(),
+        });
+    }
+    // idempotence
+    if let Ok(r2) = read(twice, "escape_once", T_ONCE2, &mut fs) {
+        match r2 {
+            None => unexpected_error("escape_once", T_ONCE2, twice, &mut fs),
+            Some(r2) => {
+                if r2 != r {
+                    fs.push(Finding {
+                        key: "escape_once:not-idempotent".into(),
+                        what: format!("escape_once applied twice gives {} but once gives {}", show(&r2), show(&r)),
+                        template: T_ONCE2,
+                        expected: json!(once.summary()),
+                        observed: twice.summary(),
+                    });
+                }
+            }
+        }
+    }
+    fs
+}
+
+/// returns the findings and whether the decode cell was a malformed-percent one
+fn check_url(x: &str, enc: &Out, encdec: &Out, dec: &Out) -> (Vec<Finding>, bool) {
+    let mut fs = Vec::new();
+    // url_encode
+    if let Ok(r) = read(enc, "url_encode", T_ENC, &mut fs) {
+        match r {
+            None => unexpected_error("url_encode", T_ENC, enc, &mut fs),
+            Some(r) => {
+                let b = r.as_bytes();
+                let mut i = 0;
+                let mut bad: Option<char> = None;
+                while i < b.len() {
+                    if b[i].is_ascii_alphanumeric() || matches!(b[i], b'-' | b'.' | b'_') {
+                        i += 1;
+                    } else if b[i] == b'%' && b.get(i + 1).copied().and_then(hexval).is_some() && b.get(i + 2).copied().and_then(hexval).is_some() {
+                        i += 3;
+                    } else {
+                        bad = r[i..].chars().next().or(Some('\u{fffd}'));
+                        break;
+                    }
+                }
+                if let Some(c) = bad {
+                    fs.push(Finding {
+                        key: "url_encode:forbidden-char".into(),
+                        what: format!("url_encode emitted {c:?}, which is neither a letter, a digit, '-', '.', '_' nor a percent-escape"),
+                        template: T_ENC,
+                        expected: json!("only [A-Za-z0-9._-] and %XX"),
+                        observed: enc.summary(),
+                    });
+                } else if let Err(e) = check_encoding(x, &r) {
+                    fs.push(Finding {
+                        key: "url_encode:differs-from-reference".into(),
+                        what: format!("url_encode output is not the percent-encoding of the input: {e}"),
+                        template: T_ENC,
+                        expected: json!("alphanumerics literal, '-' '.' '_' literal or escaped, every other byte as %XX"),
+                        observed: enc.summary(),
+                    });
+                }
+            }
+        }
+    }
+    // url_decode inverts url_encode
+    if let Ok(r) = read(encdec, "url_encode|url_decode", T_ENCDEC, &mut fs) {
+        if r.as_deref() != Some(x) {
+            fs.push(Finding {
+                key: "url:roundtrip".into(),
+                what: format!("url_decode of url_encode gave {} instead of the input", show(&encdec.summary())),
+                template: T_ENCDEC,
+                expected: json!(format!("ok:{}", RVal::Str(x.to_string()).dump())),
+                observed: encdec.summary(),
+            });
+        }
+    }
+    // url_decode on arbitrary text
+    let (bytes, malformed) = ref_url_decode(x);
+    let expected = String::from_utf8(bytes).ok();
+    if let Ok(r) = read(dec, "url_decode", T_DEC, &mut fs) {
+        let exp_json = match &expected {
+            Some(s) => json!(format!("ok:{}", RVal::Str(s.clone()).dump())),
+            None => json!("err"),
+        };
+        match (&r, &expected) {
+            (Some(r), Some(e)) if r == e => {}
+            (None, None) => {}
+            (None, Some(_)) if malformed => {} // outside "has been encoded": an error is acceptable as well
+            (None, Some(_)) => fs.push(Finding {
+                key: "url_decode:unexpected-error".into(),
+                what: "url_decode failed although the decoded bytes are valid UTF-8".into(),
+                template: T_DEC,
+                expected: exp_json,
+                observed: dec.summary(),
+            }),
+            (Some(_), None) => fs.push(Finding {
+                key: "url_decode:accepts-invalid-utf8".into(),
+                what: "url_decode returned a string although the decoded bytes are not valid UTF-8".into(),
+                template: T_DEC,
+                expected: exp_json,
+                observed: dec.summary(),
+            }),
+            (Some(r), Some(_)) => fs.push(Finding {
+                key: "url_decode:differs-from-reference".into(),
+                what: format!("url_decode gave {} which differs from the reference decoder", show(r)),
+                template: T_DEC,
+                expected: exp_json,
+                observed: dec.summary(),
+            }),
+        }
+    }
+    (fs, malformed)
+}
+
+fn is_subsequence(small: &str, big: &str) -> bool {
+    let mut it = big.chars();
+    small.chars().all(|c| it.by_ref().any(|d| d == c))
+}
+
+fn check_strip(x: &str, out: &Out) -> Vec<Finding> {
+    let mut fs = Vec::new();
+    let Ok(r) = read(out, "strip_html", T_STRIP, &mut fs) else { return fs };
+    let Some(r) = r else {
+        unexpected_error("strip_html", T_STRIP, out, &mut fs);
+        return fs;
+    };
+    if let Some(i) = r.find('<') {
+        if r[i..].contains('>') {
+            fs.push(Finding {
+                key: "strip_html:tag-survives".into(),
+                what: "strip_html output still contains a complete <...> tag".into(),
+                template: T_STRIP,
+                expected: json!("no '<' followed later by '>'"),
+                observed: out.summary(),
+            });
+        }
+    }
+    if (!x.contains('<') && r != x) || !is_subsequence(&r, x) {
+        fs.push(Finding {
+            key: "strip_html:alters-text".into(),
+            what: "strip_html did something other than removing text (output is not a subsequence of the input, or tag-free input changed)".into(),
+            template: T_STRIP,
+            expected: json!("a subsequence of the input; the input itself when it has no '<'"),
+            observed: out.summary(),
+        });
+    }
+    fs
+}
+
+// ---------------------------------------------------------------------------------------------
+// execution
+// ---------------------------------------------------------------------------------------------
+
+struct Env {
+    parser: Parser,
+    esc: Template,
+    once: Template,
+    once2: Template,
+    enc: Template,
+    encdec: Template,
+    dec: Template,
+    strip: Template,
+}
+
+impl Env {
+    fn new() -> Env {
+        let p = parser(Config::Stdlib);
+        let t = |s: &str| p.parse(s).expect("c16 template");
+        Env {
+            esc: t(T_ESCAPE),
+            once: t(T_ONCE),
+            once2: t(T_ONCE2),
+            enc: t(T_ENC),
+            encdec: t(T_ENCDEC),
+            dec: t(T_DEC),
+            strip: t(T_STRIP),
+            parser: p,
+        }
+    }
+}
+
+fn data(x: &str) -> Object {
+    let mut o = Object::new();
+    o.insert("x".into(), liquid::model::Value::scalar(x.to_string()));
+    o
+}
+
+/// renders of one group for input x, and the findings
+fn evaluate(env: &Env, g: Group, x: &str) -> (Vec<Out>, Vec<Finding>, bool) {
+    let d = data(x);
+    match g {
+        Group::Escape => {
+            let o = render(&env.esc, &d);
+            let f = check_escape(x, &o);
+            (vec![o], f, false)
+        }
+        Group::EscapeOnce => {
+            let a = render(&env.once, &d);
+            let b = render(&env.once2, &d);
+            let f = check_escape_once(x, &a, &b);
+            (vec![a, b], f, false)
+        }
+        Group::Url => {
+            let a = render(&env.enc, &d);
+            let b = render(&env.encdec, &d);
+            let c = render(&env.dec, &d);
+            let (f, m) = check_url(x, &a, &b, &c);
+            (vec![a, b, c], f, m)
+        }
+        Group::StripHtml => {
+            let o = render(&env.strip, &d);
+            let f = check_strip(x, &o);
+            (vec![o], f, false)
+        }
+    }
+}
+
+fn case(ctx: &mut Ctx, env: &Env, g: Group, x: &str, family: &'static str) {
+    let h = hash_combine(hash_str(g.name()), hash_str(x));
+    if !ctx.mine(h) {
+        return;
+    }
+    if ctx.evaluations % 64 == 0 {
+        ctx.set_progress(&json!({"kind":"filter-eval","group":g.name(),"data":{"$obj":[["x", x]]}}).to_string());
+    }
+    let (outs, findings, malformed) = evaluate(env, g, x);
+    ctx.record(h, g.nontrivial(x));
+    match g {
+        Group::Escape => ctx.count("filter:escape"),
+        Group::EscapeOnce => {
+            ctx.add("filter:escape_once", 3);
+            ctx.count("law:escape_once-idempotent");
+        }
+        Group::Url => {
+            ctx.add("filter:url_encode", 2);
+            ctx.add("filter:url_decode", 2);
+            ctx.count("law:url-roundtrip");
+            ctx.count(if malformed { "url_decode:malformed-percent-cell" } else { "url_decode:well-formed-cell" });
+            ctx.count(match outs.get(2) {
+                Some(Out::Err(_)) => "url_decode:error",
+                _ => "url_decode:ok",
+            });
+        }
+        Group::StripHtml => ctx.count("filter:strip_html"),
+    }
+    ctx.count(family);
+    for o in &outs {
+        ctx.count(match o {
+            Out::Ok(_) => "outcome:ok",
+            Out::Err(_) => "outcome:err",
+            Out::Panic(_) => "outcome:panic",
+            Out::BadUtf8(_) => "outcome:bad-utf8",
+        });
+    }
+    for f in findings {
+        ctx.violation(&f.key, &f.what, || {
+            json!({"kind":"filter-eval","group":g.name(),"template":f.template,"data":{"$obj":[["x", x]]},
+                   "expected":f.expected,"observed":f.observed,"family":family})
+        });
+    }
+    ctx.sample(|| {
+        json!({"family":family,"group":g.name(),"x":x,
+               "observed":outs.iter().map(|o| o.summary().chars().take(100).collect::<String>()).collect::<Vec<_>>()})
+    });
+}
+
+/// all strings of length <= maxlen over `alpha`, by counting in base |alpha|, without materialising them
+fn for_each_string(alpha: &[char], maxlen: usize, mut f: impl FnMut(&str)) {
+    let mut s = String::new();
+    for len in 0..=maxlen {
+        let total = alpha.len().pow(len as u32);
+        for mut k in 0..total {
+            s.clear();
+            for _ in 0..len {
+                s.push(alpha[k % alpha.len()]);
+                k /= alpha.len();
+            }
+            f(&s);
+        }
+    }
+}
+
+fn for_each_token_seq(tokens: &[&str], maxlen: usize, mut f: impl FnMut(&str)) {
+    let mut s = String::new();
+    for len in 1..=maxlen {
+        let total = tokens.len().pow(len as u32);
+        for mut k in 0..total {
+            s.clear();
+            for _ in 0..len {
+                s.push_str(tokens[k % tokens.len()]);
+                k /= tokens.len();
+            }
+            f(&s);
+        }
+    }
+}
+
+pub fn run(ctx: &mut Ctx) {
+    ctx.start_watchdog(120);
+    let env = Env::new();
+    let html_len = ctx.scale(4, 5);
+    let tag_len = ctx.scale(5, 6);
+    let tok_len = ctx.scale(3, 4);
+    ctx.extra.insert("exhaustive".into(), json!({"html_maxlen":html_len,"url_maxlen":4,"strip_html_maxlen":tag_len,"entity_token_maxlen":tok_len}));
+    for_each_string(&HTML_ALPHA, html_len, |s| {
+        case(ctx, &env, Group::Escape, s, "family:exhaustive-html-alphabet");
+        case(ctx, &env, Group::EscapeOnce, s, "family:exhaustive-html-alphabet");
+    });
+    for_each_token_seq(&ENTITY_TOKENS, tok_len, |s| {
+        case(ctx, &env, Group::Escape, s, "family:exhaustive-entity-tokens");
+        case(ctx, &env, Group::EscapeOnce, s, "family:exhaustive-entity-tokens");
+    });
+    for_each_string(&URL_ALPHA, 4, |s| {
+        case(ctx, &env, Group::Url, s, "family:exhaustive-url-alphabet");
+    });
+    for_each_string(&TAG_ALPHA, tag_len, |s| {
+        case(ctx, &env, Group::StripHtml, s, "family:exhaustive-tag-alphabet");
+    });
+    let n = ctx.scale(50_000u64, 1_000_000u64);
+    let rng = ctx.rng("c16-random");
+    for i in 0..n {
+        let mut r = rng.fork(i);
+        let maxlen = if r.chance(1, 2) { 24 } else { 200 };
+        let x = rand_text(&mut r, maxlen, RANDOM_TOKENS);
+        for g in [Group::Escape, Group::EscapeOnce, Group::Url, Group::StripHtml] {
+            case(ctx, &env, g, &x, "family:random");
+        }
+    }
+}
+
+pub fn replay(j: &Json) -> bool {
+    let env = Env::new();
+    let _ = &env.parser;
+    let d = RVal::from_json(&j["data"]);
+    let x = match &d {
+        RVal::Object(kv) => kv.iter().find(|(k, _)| k == "x").and_then(|(_, v)| if let RVal::Str(s) = v { Some(s.clone()) } else { None }),
+        _ => None,
+    };
+    let (Some(x), Some(g)) = (x, j["group"].as_str().and_then(Group::from_name)) else {
+        println!("replay file lacks a string x or a known group");
+        return false;
+    };
+    println!("group={} x={:?}", g.name(), x);
+    println!("recorded : template {} expected {} observed {}", j["template"], j["expected"], j["observed"]);
+    let (outs, findings, malformed) = evaluate(&env, g, &x);
+    let names: &[&str] = match g {
+        Group::Escape => &[T_ESCAPE],
+        Group::EscapeOnce => &[T_ONCE, T_ONCE2],
+        Group::Url => &[T_ENC, T_ENCDEC, T_DEC],
+        Group::StripHtml => &[T_STRIP],
+    };
+    for (t, o) in names.iter().zip(&outs) {
+        println!("observed now : {t} -> {}", o.summary());
+    }
+    match g {
+        Group::Escape => println!("reference    : output must un-escape to the input and contain no bare special"),
+        Group::EscapeOnce => {
+            println!("reference    : {:?} (five entities) | {:?} (any entity)", ref_escape_once(&x, false), ref_escape_once(&x, true))
+        }
+        Group::Url => {
+            let (b, _) = ref_url_decode(&x);
+            match String::from_utf8(b) {
+                Ok(s) => println!("reference    : url_decode -> {:?}{}", s, if malformed { " (or an error: malformed %)" } else { "" }),
+                Err(_) => println!("reference    : url_decode -> error (decoded bytes are not UTF-8)"),
+            }
+        }
+        Group::StripHtml => println!("reference    : no '<' followed later by '>'; only removals"),
+    }
+    for f in &findings {
+        println!("VIOLATION {}: {}", f.key, f.what);
+    }
+    !findings.is_empty()
+}
+
+#[cfg(test)]
+mod tests {
+    use super::*;
+
+    fn ok(s: &str) -> Out {
+        Out::Ok(RVal::Str(s.to_string()).dump())
+    }
+    fn keys(f: &[Finding]) -> Vec<&str> {
+        f.iter().map(|f| f.key.as_str()).collect()
+    }
+
+    /// the monitors accept correct behaviour and reject the defects they are named after
+    #[test]
+    fn oracle_self_test() {
+        assert!(check_escape("a<&'\">", &ok("a&lt;&amp;&#39;&quot;&gt;")).is_empty());
+        assert_eq!(keys(&check_escape("<", &ok("<"))), ["escape:bare-special"]);
+        assert_eq!(keys(&check_escape("a&b", &ok("a&b"))), ["escape:bare-special"]);
+        assert_eq!(keys(&check_escape("a&b", &ok("a&amp;amp;b"))), ["escape:not-invertible"]);
+        assert!(check_escape_once("&lt;<&copy;", &ok("&lt;&lt;&amp;copy;"), &ok("&lt;&lt;&amp;copy;")).is_empty());
+        assert!(check_escape_once("&lt;<&copy;", &ok("&lt;&lt;&copy;"), &ok("&lt;&lt;&copy;")).is_empty());
+        assert!(keys(&check_escape_once("&lt;", &ok("&amp;lt;"), &ok("&amp;lt;"))).contains(&"escape_once:changes-meaning"));
+        assert_eq!(keys(&check_escape_once("&", &ok("&amp;"), &ok("&amp;amp;"))), ["escape_once:not-idempotent"]);
+        assert!(keys(&check_escape_once("&amp", &ok("&amp"), &ok("&amp"))).contains(&"escape_once:bare-special"));
+        let x = "a b/é";
+        assert!(check_url(x, &ok("a%20b%2F%C3%A9"), &ok(x), &ok(x)).0.is_empty());
+        assert_eq!(keys(&check_url(x, &ok("a+b%2F%C3%A9"), &ok(x), &ok(x)).0), ["url_encode:forbidden-char"]);
+        assert_eq!(keys(&check_url(x, &ok("a%20b%2F%C3%A8"), &ok(x), &ok(x)).0), ["url_encode:differs-from-reference"]);
+        assert_eq!(keys(&check_url(x, &ok("a%20b%2F%C3%A9"), &ok("a b/e"), &ok(x)).0), ["url:roundtrip"]);
+        assert_eq!(keys(&check_url("%FF", &ok("%25FF"), &ok("%FF"), &ok("\u{fffd}")).0), ["url_decode:accepts-invalid-utf8"]);
+        assert!(check_url("%FF", &ok("%25FF"), &ok("%FF"), &Out::Err("e".into())).0.is_empty());
+        assert_eq!(keys(&check_url("%C3%A9+", &ok("%25C3%25A9%2B"), &ok("%C3%A9+"), &ok("é+")).0), ["url_decode:differs-from-reference"]);
+        assert!(check_url("%C3%A9+%2", &ok("%25C3%25A9%2B%252"), &ok("%C3%A9+%2"), &ok("é %2")).0.is_empty());
+        assert_eq!(keys(&check_url("a", &ok("a"), &ok("a"), &Out::Err("e".into())).0), ["url_decode:unexpected-error"]);
+        assert!(check_strip("a<b>c< d", &ok("ac< d")).is_empty());
+        assert_eq!(keys(&check_strip("<<a>>", &ok("<a>"))), ["strip_html:tag-survives"]);
+        assert_eq!(keys(&check_strip("a > b", &ok("a  b"))), ["strip_html:alters-text"]);
+    }
+
+    #[test]
+    fn enumeration_sizes() {
+        let mut n = 0;
+        for_each_string(&URL_ALPHA, 4, |_| n += 1);
+        assert_eq!(n, 1 + 9 + 81 + 729 + 6561);
+        let mut seen = std::collections::HashSet::new();
+        for_each_string(&TAG_ALPHA, 3, |s| {
+            seen.insert(s.to_string());
+        });
+        assert_eq!(seen.len(), 1 + 12 + 144 + 1728);
+    }
 }
